@@ -721,6 +721,24 @@ func runC06Reset(c *Ctx) {
 						fields[fa.Field] = true
 					}
 				case *ssa.Call:
+					// a helper introduced since the baseline, called on the destination itself, that assigns every field of its receiver
+					if h := staticCallee(x); h != nil && isNewHelper(h) && len(x.Call.Args) > 0 && x.Call.Args[0] == ssa.Value(recv) && len(h.Params) > 0 && len(h.Blocks) == 1 && st != nil {
+						hf := map[int]bool{}
+						whole := false
+						for _, hin := range h.Blocks[0].Instrs {
+							if hs, ok := hin.(*ssa.Store); ok {
+								if hs.Addr == ssa.Value(h.Params[0]) {
+									whole = true
+								}
+								if fa, ok := hs.Addr.(*ssa.FieldAddr); ok && fa.X == ssa.Value(h.Params[0]) {
+									hf[fa.Field] = true
+								}
+							}
+						}
+						if whole || (len(hf) == st.NumFields() && st.NumFields() > 0) {
+							overwrites[b] = true
+						}
+					}
 					for _, a := range x.Call.Args {
 						v := a
 						if mi, ok := v.(*ssa.MakeInterface); ok {
@@ -813,6 +831,12 @@ func runC11Enqueue(c *Ctx) {
 				step = cal
 			}
 		})
+	}
+	if step == nil && callsPush(ps) {
+		// the expansion is written inside the search loop itself: there is no separate step to interpret on its
+		// own, and the loop as a whole (heap, callbacks) is outside what this rule models
+		c.Triv(ps.Pos(), FuncName(ps), "entries pushed for a node", "the node expansion is inlined in the search loop: not judged by this rule")
+		return
 	}
 	if step == nil {
 		c.Errorf("anchor: the node-expansion step of PrioritySearch (the function calling heap.Push) does not resolve")
